@@ -166,6 +166,19 @@ Definition has_cand (cfg : config) (st : state) (t : nat) : bool :=
   if lq cfg then negb (match lq_get (lqq st) t with [] => true | _ => false end)
   else fw_has (fwq st) t.
 
+(* the candidates get_features_from_track_id returns for a track, as uids,
+   oldest first (fixed window: per remembered frame the first instance carrying
+   the track id; local queues: the track's deque) *)
+Definition fw_cands (q : list (list (nat * option nat))) (t : nat) : list nat :=
+  flat_map (fun fr =>
+              match find (fun ut => match snd ut with Some t' => t' =? t | None => false end) fr with
+              | Some ut => [fst ut]
+              | None => []
+              end) q.
+
+Definition cands (cfg : config) (st : state) (t : nat) : list nat :=
+  if lq cfg then lq_get (lqq st) t else fw_cands (fwq st) t.
+
 (* Tracker.get_scores raises (np.nanmax of an empty list) *)
 Definition scores_raise (cfg : config) (st : state) (n : nat) : bool :=
   red_max cfg && negb (fix_iii cfg) && (0 <? n) && negb (forallb (has_cand cfg st) (cur st)).
@@ -420,12 +433,13 @@ Definition step_checks (cfg : config) (st : state) (f : frame) : list bool :=
     scoring && sel_F4iii cfg st ].
 
 Fixpoint run_checked_from (cfg : config) (st : state) (h : list frame)
-  : list (outcome * list bool) :=
+  : list (outcome * list bool * list (list nat)) :=
   match h with
   | [] => []
   | f :: r =>
       let '(st', o) := step cfg st f in
-      (o, step_checks cfg st f) :: match o with Ok _ => run_checked_from cfg st' r | Raise _ => [] end
+      (o, step_checks cfg st f, map (cands cfg st) (cur st))
+        :: match o with Ok _ => run_checked_from cfg st' r | Raise _ => [] end
   end.
 
 Inductive case :=
@@ -435,7 +449,7 @@ Inductive case :=
                                                               against the greedy contract *)
 
 Inductive result :=
-| RRun (l : list (outcome * list bool)) (final_tracks : nat)
+| RRun (l : list (outcome * list bool * list (list nat))) (final_tracks : nat)
 | RMatch (hung : answer) (hung_total : option Q) (gr : pairs) (gr_ok : bool) (impl_gr_ok : bool).
 
 Fixpoint final_state (cfg : config) (st : state) (h : list frame) : state :=
